@@ -1149,6 +1149,46 @@ fn main() {
         let inits = vec![NSt { hist: vec![], cfg: (usize::MAX, usize::MAX, usize::MAX, usize::MAX), solves: 0 }];
         mc::bfs::explore(&ctx, "configuration / solve histories on one Newton object", inits, mc::bfs::BfsOpts { max_depth: depth, state_cap: ctx.pick(200_000, 2_000_000) });
     }
+    // Complex variants on functions whose VALUES are of extreme magnitude (exp(z) = c with |c| = 1e+-160, s (z^2 + 4) with s = 1e-170,
+    // 1e160): the step f / f' went through the unscaled complex quotient and was NaN or wrong by 3e-4 (second bug hunt); repaired by
+    // 8d587e4 in /repo, demanded now. The real variant on the same equations always worked.
+    {
+        fn cexp(z: Cmplx) -> Cmplx {
+            let m = z.real.exp();
+            Cmplx::new(m * z.imag.cos(), m * z.imag.sin())
+        }
+        let exp_case = |c: f64| -> Result<(), String> {
+            let root = c.ln();
+            let mut nw = Newton::<Cmplx>::new(Cmplx::new(root + 0.1, 0.05));
+            nw.tolerance(1e-10);
+            nw.iterations(50);
+            match nw.solve(&|z: Cmplx| { let e = cexp(z); Cmplx::new(e.real - c, e.imag) }) {
+                Ok(z) if (z.real - root).hypot(z.imag) <= 1e-9 => Ok(()),
+                Ok(z) => Err(format!("Ok({:?}) is {:e} away from the root {}", z, (z.real - root).hypot(z.imag), root)),
+                Err(z) => Err(format!("Err({:?}) from a guess inside the basin after 50 iterations", z)),
+            }
+        };
+        let poly_case = |s: f64| -> Result<(), String> {
+            // s (z^2 + 4), root 2i, guess 0.1 + 2.1i
+            let mut nw = Newton::<Cmplx>::new(Cmplx::new(0.1, 2.1));
+            nw.tolerance(1e-10);
+            nw.iterations(50);
+            match nw.solve(&|z: Cmplx| Cmplx::new((z.real * z.real - z.imag * z.imag + 4.0) * s, 2.0 * z.real * z.imag * s)) {
+                Ok(z) if z.real.hypot(z.imag - 2.0) <= 1e-9 => Ok(()),
+                Ok(z) => Err(format!("Ok({:?}) is {:e} away from the root 2i", z, z.real.hypot(z.imag - 2.0))),
+                Err(z) => Err(format!("Err({:?}) from a guess inside the basin after 50 iterations", z)),
+            }
+        };
+        ctx.listed_cases(
+            "listed inputs: complex variants on functions of extreme magnitude (bug-hunt inputs, repaired by 8d587e4)",
+            vec![
+                ("extreme-complex Newton<Cmplx> exp(z) = 1e-160".to_string(), Box::new(move || exp_case(1e-160))),
+                ("extreme-complex Newton<Cmplx> exp(z) = 1e160".to_string(), Box::new(move || exp_case(1e160))),
+                ("extreme-complex Newton<Cmplx> 1e-170 (z^2 + 4)".to_string(), Box::new(move || poly_case(1e-170))),
+                ("extreme-complex Newton<Cmplx> 1e150 (z^2 + 4)".to_string(), Box::new(move || poly_case(1e150))),
+            ],
+        );
+    }
     // Known findings (known_findings.txt), all three consequences of design choices rather than slips, none repairable by a small patch:
     // (1) the finite-difference step delta is absolute, so beyond |x| = 2^27 (default delta 1e-8) x + delta == x, the difference
     //     quotient is 0 and every finite-difference variant fails on f(x) = x - 1e9;
@@ -1172,6 +1212,26 @@ fn main() {
                     match nw.solve(&|v: Vec64| Vector::create(vec![v[0] - 1e9])) {
                         Ok(v) if (v[0] - 1e9).abs() <= 1e-3 => Ok(()),
                         other => Err(format!("{:?} for a linear system started next to its root", other.map(|v| v.vec).map_err(|v| v.vec))),
+                    }
+                })),
+                ("fd-step-absolute Newton<f64> (x-R)(x-3R)(x+2R), R = 8.5e-10, from 1.1 R".to_string(), Box::new(|| {
+                    let rr = 8.5e-10;
+                    let mut nw = Newton::<f64>::new(1.1 * rr);
+                    nw.tolerance(1e-12);
+                    nw.iterations(50);
+                    match nw.solve(&|x| (x - rr) * (x - 3.0 * rr) * (x + 2.0 * rr)) {
+                        Ok(v) if (v - rr).abs() <= 1e-11 => Ok(()),
+                        other => Err(format!("{:?}; textbook Newton converges from this guess in 6 steps (the central difference adds delta^2 = 1e-16 to f' = -4e-18)", other)),
+                    }
+                })),
+                ("fd-step-absolute Newton<f64> x^3 = R^3, R = 8.5e-10, from 1.1 R".to_string(), Box::new(|| {
+                    let rr = 8.5e-10;
+                    let mut nw = Newton::<f64>::new(1.1 * rr);
+                    nw.tolerance(1e-12);
+                    nw.iterations(50);
+                    match nw.solve(&|x| x * x * x - rr * rr * rr) {
+                        Ok(v) if (v - rr).abs() <= 1e-11 => Ok(()),
+                        other => Err(format!("{:?} (root 8.5e-10, tolerance 1e-12)", other)),
                     }
                 })),
                 ("residual-criterion-unattainable Newton<Vec64> x^2 = 8192 tol 1e-12".to_string(), Box::new(|| {
